@@ -25,6 +25,7 @@ Judge(E) ==
            IF E.reserved_count > 0 THEN "reserved_key_indexed" ELSE "valid_data_rejected">>
     [] E.op = "dynamic_base" -> <<E.out = (IF IsPow2(E.base) THEN "ok" ELSE "invalid_argument"), "base_not_checked">>
     [] E.op = "dynamic_bulk" -> <<E.out = (IF SortedSeq(E.keys) THEN "ok" ELSE "invalid_argument"), "unsorted_bulk_load_not_rejected">>
+    [] E.op = "dynamic_bulk_value" -> <<E.out = (IF E.reserved_at >= 0 THEN "invalid_argument" ELSE "ok"), "reserved_mapped_value_in_bulk_load_not_rejected">>
     [] E.op = "dynamic_put" -> <<IF E.reserved_value = 1 THEN E.out = "invalid_argument" /\ E.unchanged ELSE E.out = "ok",
                                  "reserved_mapped_value_not_rejected_or_container_changed">>
     [] E.op = "dynamic_range" -> <<E.out = (IF E.lo > E.hi THEN "invalid_argument" ELSE "ok"), "range_lo_gt_hi_not_rejected">>
